@@ -127,6 +127,16 @@ def iter (running : Uuid → Bool) (e : Ent) (un : Unalloc) (dont : List IType) 
         else ⟨[.atQuota false, .create e.itype false], false, un, dont, cs.2⟩
   | _ => ⟨[], false, un, dont, script⟩
 
+/-- The `Running()` snapshot of a pass: container ↦ zero time (`none`: process not known to have
+exited) or the time of the pool's "exited at T" placeholder. -/
+abbrev RunSnap := List (Uuid × Option Nat)
+
+/-- All that `runQueue` reads of the snapshot: `_, running := running[ctr.UUID]` — whether the
+container is a key. The exit time is *not* looked at: a container whose crunch-run has exited so
+recently that the pool still keeps its placeholder is skipped like one with a live process
+(its final state may not have reached the queue cache yet; `sync` decides what happens to it). -/
+def snapKeys (snap : RunSnap) : Uuid → Bool := fun u => snap.any (fun p => p.1 == u)
+
 /-- What is known after the `tryrun` loop. -/
 structure LoopOut where
   calls : List Call          -- calls made by the loop, in order
